@@ -39,6 +39,11 @@ b = by.get("%s:%s" % (bench, inv)) or by.get(bench) or script.get("default") or 
 if "by_start" in script:
     n = sum(1 for l in open(os.path.join(W, "starts.log")) if json.loads(l).get("bench") == bench)
     b = script["by_start"].get("%s#%d" % (bench, n), b)
+if "block_nth" in script and b.get("block_if_nth"):
+    # block the n-th process start of the session, whichever run it belongs to
+    total = sum(1 for l in open(os.path.join(W, "starts.log")))
+    if total == script["block_nth"]:
+        b = dict(b, block=b["block_if_nth"])
 out = b.get("out")
 if out is None:
     out = "%s: iterations=1 runtime: %dus\n" % (bench or "B", 1000 * (int(inv) if inv.isdigit() else 1))
